@@ -18,6 +18,7 @@
 
 #include "myth_init_func.h"
 #include "myth_misc_func.h"
+#include "myth_spinlock_func.h"
 #include "myth_worker_func.h"
 
 /* allocate a node (internal or leaf) of a tls tree */
@@ -250,6 +251,7 @@ static inline void myth_tls_key_allocator_init(myth_tls_key_allocator_t * s) {
   }
   s->keys[myth_tls_n_keys - 1].next = 0;
   s->free = &s->keys[0];
+  myth_spin_init_body(&s->lock);
 }
 
 static inline void myth_tls_key_allocator_fini(myth_tls_key_allocator_t * s) {
@@ -265,28 +267,29 @@ static inline void myth_tls_fini() {
   myth_tls_key_allocator_fini(g_myth_tls_key_allocator);
 }
 
-/* allocate a new key */
+/* allocate a new key.
+   the free list is popped and pushed under s->lock: a lock-free pop that
+   reads head->next before its CAS is ABA-prone (the head can be popped,
+   its successor popped and the head pushed back in between, after which
+   the CAS installs a live cell as the head) */
 static inline int
 myth_tls_key_allocator_alloc(myth_tls_key_allocator_t * s,
 			     myth_tls_destructor_fun_t destructor) {
-  while (1) {
-    /* try to pull the element from the free list */
-    MYTH_VERIF_POINT("key.alloc.readhead", s, 0);
-    myth_tls_key_entry_t * ke = s->free;
-    if (ke) {
-      MYTH_VERIF_POINT("key.alloc.readnext", s, ke - s->keys);
-      myth_tls_key_entry_t * next = ke->next;
-      MYTH_VERIF_POINT("key.alloc.cas", s, ke - s->keys);
-      if (__sync_bool_compare_and_swap(&s->free, ke, next)) {
-	/* mark the key as used */
-	ke->next = (myth_tls_key_entry_t *)-1;
-	ke->destructor = destructor;
-	return ke - s->keys;
-      }
-    } else {
-      return -1;
-    }
+  myth_tls_key_entry_t * ke;
+  myth_spin_lock_body(&s->lock);
+  MYTH_VERIF_POINT("key.alloc.readhead", s, 0);
+  ke = s->free;
+  if (ke) {
+    MYTH_VERIF_POINT("key.alloc.readnext", s, ke - s->keys);
+    myth_tls_key_entry_t * next = ke->next;
+    MYTH_VERIF_POINT("key.alloc.cas", s, ke - s->keys);
+    s->free = next;
+    /* mark the key as used */
+    ke->next = (myth_tls_key_entry_t *)-1;
+    ke->destructor = destructor;
   }
+  myth_spin_unlock_body(&s->lock);
+  return ke ? (int)(ke - s->keys) : -1;
 }
 
 /* deallocate a key */
@@ -296,22 +299,21 @@ myth_tls_key_allocator_dealloc(myth_tls_key_allocator_t * s, int key) {
     return (myth_tls_destructor_fun_t)-1;
   }
   myth_tls_key_entry_t * ke = &s->keys[key];
+  myth_spin_lock_body(&s->lock);
   /* make sure the key is being used */
   MYTH_VERIF_POINT("key.dealloc.check", s, key);
   if (ke->next != (myth_tls_key_entry_t *)-1) {
+    myth_spin_unlock_body(&s->lock);
     return (myth_tls_destructor_fun_t)-1;
   }
   myth_tls_destructor_fun_t f = ke->destructor;
-  while (1) {
-    /* try to push the cell to the free list */
-    MYTH_VERIF_POINT("key.dealloc.readhead", s, key);
-    myth_tls_key_entry_t * head = s->free;
-    ke->next = head;
-    MYTH_VERIF_POINT("key.dealloc.cas", s, key);
-    if (__sync_bool_compare_and_swap(&s->free, head, ke)) {
-      return f;
-    }
-  }
+  /* push the cell to the free list */
+  MYTH_VERIF_POINT("key.dealloc.readhead", s, key);
+  ke->next = s->free;
+  MYTH_VERIF_POINT("key.dealloc.cas", s, key);
+  s->free = ke;
+  myth_spin_unlock_body(&s->lock);
+  return f;
 }
 
 static inline int myth_key_create_body(myth_key_t * key,
